@@ -418,3 +418,234 @@ Example ex_strict :
   client_id_of DoT ex_host true (Some ex_evil) None = CidErr EMismatch /\
   client_id_of DoT ex_host false (Some ex_evil) None = CidOk [].
 Proof. split; reflexivity. Qed.
+
+(** * Where the DoH server name comes from (TLS state vs. Host header)
+
+    [d_tls_sni r = Some n] is "r.TLS != nil with ServerName n" ([Some []] is a
+    TLS connection WITHOUT SNI); [None] is "r.TLS == nil" (plain HTTP behind a
+    proxy).  The two must not be confused: with a TLS state the Host header is
+    never read, even when the server name is empty. *)
+
+(** Which input the client's server name was read from. *)
+Definition name_source (p : proto) (sni : option bytes) (h : option doh_req) (cli : bytes) : Prop :=
+  match p with
+  | DoH => exists r, h = Some r /\
+      match d_tls_sni r with
+      | Some n => cli = n
+      | None => (d_host_hdr r = [] /\ cli = []) \/
+                (d_host_hdr r <> [] /\ split_host (d_host_hdr r) = Some cli)
+      end
+  | DoT | DoQ => sni = Some cli
+  | UDP | TCP | DNSCrypt => cli = []
+  end.
+
+Lemma server_name_source p sni h cli :
+  server_name_of p sni h = inr cli <-> name_source p sni h cli.
+Proof.
+  destruct p; cbn [server_name_of name_source];
+    try (split; [intros [= <-]; reflexivity|intros ->; reflexivity]).
+  - destruct sni; split; try discriminate; intros [= ->]; reflexivity.
+  - destruct sni; split; try discriminate; intros [= ->]; reflexivity.
+  - destruct h as [r|]; [|split; [discriminate|intros (r & [=] & _)]].
+    unfold server_name_from_http. split.
+    + intros H. exists r. split; [reflexivity|].
+      destruct (d_tls_sni r) as [n|]; [injection H as ->; reflexivity|].
+      destruct (d_host_hdr r) as [|c hh] eqn:Eh; [injection H as <-; left; auto|].
+      destruct (split_host (c :: hh)); [injection H as ->|discriminate].
+      right. split; [discriminate|reflexivity].
+    + intros (r' & [= <-] & H).
+      destruct (d_tls_sni r) as [n|]; [subst; reflexivity|].
+      destruct H as [[-> ->]|[Hne Hs]]; [reflexivity|].
+      destruct (d_host_hdr r) as [|c hh]; [congruence|]. rewrite Hs. reflexivity.
+Qed.
+
+(** [sound] with the origin of the name made explicit. *)
+Theorem sound_source p host strict sni h id :
+  client_id_of p host strict sni h = CidOk id -> id <> [] ->
+  secure p /\ valid_label id /\ lower id = id /\
+  ((p = DoH /\ exists r x, h = Some r /\ path_id (d_path r) x /\ valid_label x /\ id = lower x) \/
+   (reaches_sni p h /\ host <> [] /\
+    exists cli x, name_source p sni h cli /\ immediate_sub cli host x /\
+                  valid_label x /\ id = lower x)).
+Proof.
+  intros H Hid. destruct (sound _ _ _ _ _ _ H Hid) as (H1 & H2 & H3 & [H4|(H4 & H5 & cli & x & H6 & H7)]).
+  - split; [exact H1|]. split; [exact H2|]. split; [exact H3|]. left. exact H4.
+  - split; [exact H1|]. split; [exact H2|]. split; [exact H3|]. right.
+    split; [exact H4|]. split; [exact H5|]. exists cli, x.
+    split; [apply server_name_source, H6|exact H7].
+Qed.
+
+Definition doh_tls (path n hh : bytes) : doh_req :=
+  {| d_path := path; d_tls_sni := Some n; d_host_hdr := hh |}.
+Definition doh_plain (path hh : bytes) : doh_req :=
+  {| d_path := path; d_tls_sni := None; d_host_hdr := hh |}.
+
+(** With a TLS state the result does not depend on the Host header at all
+    (for every protocol, path, server name incl. the empty one, strictness). *)
+Theorem tls_ignores_host p host strict sni path n host1 host2 :
+  client_id_of p host strict sni (Some (doh_tls path n host1)) =
+  client_id_of p host strict sni (Some (doh_tls path n host2)).
+Proof. destruct p; reflexivity. Qed.
+
+(** A returned id on a DoH request with a TLS state is the path id or the
+    label before the configured name in the TLS server name. *)
+Theorem sound_doh_tls host strict sni path n hh id :
+  client_id_of DoH host strict sni (Some (doh_tls path n hh)) = CidOk id -> id <> [] ->
+  (exists x, path_id path x /\ valid_label x /\ id = lower x) \/
+  (path_plain path /\ host <> [] /\
+   exists x, immediate_sub n host x /\ valid_label x /\ id = lower x).
+Proof.
+  intros H Hid.
+  destruct (sound_source _ _ _ _ _ _ H Hid) as (_ & _ & _ & [(_ & r & x & [= <-] & Hx)|(Hr & Hh & cli & x & Hs & Hx)]).
+  - left. exists x. exact Hx.
+  - right. destruct Hr as [[=]|[[=]|(_ & r & [= <-] & Hp)]].
+    split; [exact Hp|]. split; [exact Hh|].
+    destruct Hs as (r & [= <-] & Hs). cbn in Hs. subst cli. exists x. exact Hx.
+Qed.
+
+Lemma no_immediate_sub_of_empty host x : ~ immediate_sub [] host x.
+Proof. intros (_ & _ & H). destruct x; discriminate H. Qed.
+
+Lemma from_server_name_empty host strict :
+  host <> [] -> from_server_name host [] strict = if strict then CidErr EMismatch else CidOk [].
+Proof.
+  intros Hh. apply from_server_name_outside; [congruence|]. intros x. apply no_immediate_sub_of_empty.
+Qed.
+
+(** DoH over TLS without SNI: the empty name is what is checked.  Whatever the
+    Host header says, no id can come from the name; strict checking rejects
+    the request unless no server name is configured; an id in the path is
+    treated as usual. *)
+Theorem doh_tls_empty_sni host strict sni path hh :
+  (path_plain path ->
+   client_id_of DoH host strict sni (Some (doh_tls path [] hh)) =
+     match host with
+     | [] => CidOk []
+     | _ :: _ => if strict then CidErr EMismatch else CidOk []
+     end) /\
+  (forall x, path_id path x ->
+   client_id_of DoH host strict sni (Some (doh_tls path [] hh)) =
+     match validate_hostname_label x with
+     | Some e => CidErr (EPathLabel e)
+     | None => CidOk (lower x)
+     end) /\
+  (forall id, client_id_of DoH host strict sni (Some (doh_tls path [] hh)) = CidOk id -> id <> [] ->
+   exists x, path_id path x /\ valid_label x /\ id = lower x).
+Proof.
+  split; [|split].
+  - intros Hp. cbn. rewrite (from_doh_path_plain _ Hp). unfold sni_stage.
+    destruct host as [|c host]; [reflexivity|]. cbn [server_name_of server_name_from_http doh_tls d_tls_sni].
+    apply from_server_name_empty. discriminate.
+  - intros x Hp. cbn. rewrite (from_doh_path_id _ _ Hp).
+    destruct (validate_hostname_label x) eqn:V; [reflexivity|].
+    destruct x as [|c x]; [discriminate V|reflexivity].
+  - intros id H Hid. destruct (sound_doh_tls _ _ _ _ _ _ _ H Hid) as [Hx|(_ & _ & x & Hx & _)]; [exact Hx|].
+    exfalso. exact (no_immediate_sub_of_empty _ _ Hx).
+Qed.
+
+(** Plain-HTTP DoH (r.TLS == nil, e.g. behind a TLS-terminating proxy): the
+    Host header without its port is the client's server name; an empty Host is
+    the empty name; a Host that net.SplitHostPort rejects for another reason
+    than a missing port fails the request. *)
+Theorem doh_plain_host host strict sni path hh :
+  path_plain path -> host <> [] ->
+  client_id_of DoH host strict sni (Some (doh_plain path hh)) =
+    match hh with
+    | [] => if strict then CidErr EMismatch else CidOk []
+    | _ :: _ =>
+        match split_host hh with
+        | Some name => from_server_name host name strict
+        | None => CidErr EHostParse
+        end
+    end.
+Proof.
+  intros Hp Hh. cbn. rewrite (from_doh_path_plain _ Hp). unfold sni_stage.
+  destruct host as [|c host]; [congruence|].
+  cbn [server_name_of server_name_from_http doh_plain d_tls_sni d_host_hdr].
+  destruct hh as [|c0 hh]; [apply from_server_name_empty; discriminate|].
+  destruct (split_host (c0 :: hh)); reflexivity.
+Qed.
+
+(** Bracketed (IPv6) Host with a port: the brackets and the port are removed. *)
+Lemma split_host_bracket a port :
+  mem lbr a = false -> mem rbr a = false ->
+  mem colon port = false -> mem lbr port = false -> mem rbr port = false ->
+  split_host (lbr :: a ++ rbr :: colon :: port) = Some a.
+Proof.
+  intros H1 H2 H3 H4 H5. unfold split_host, split_host_port.
+  assert (Hl : last_index_byte colon (lbr :: a ++ rbr :: colon :: port) = Some (S (length a) + 1)%nat).
+  { replace (lbr :: a ++ rbr :: colon :: port) with ((lbr :: a ++ [rbr]) ++ colon :: port)
+      by (cbn [app]; rewrite <- app_assoc; reflexivity).
+    rewrite last_index_byte_app_last by exact H3. cbn [length]. rewrite app_length. reflexivity. }
+  rewrite Hl.
+  assert (Hi : index_byte rbr (lbr :: a ++ rbr :: colon :: port) = Some (S (length a))).
+  { change (lbr :: a ++ rbr :: colon :: port) with ((lbr :: a) ++ rbr :: colon :: port).
+    rewrite index_byte_app_first; [reflexivity|].
+    unfold mem. cbn [existsb]. fold (mem rbr a). rewrite H2. reflexivity. }
+  replace (lbr =? lbr) with true by reflexivity. rewrite Hi.
+  assert (Nat.eqb (S (length a) + 1) (length (lbr :: a ++ rbr :: colon :: port)) = false) as ->.
+  { apply Nat.eqb_neq. cbn [length]. rewrite app_length. cbn [length]. lia. }
+  rewrite Nat.eqb_refl.
+  assert (skipn 1 (lbr :: a ++ rbr :: colon :: port) = a ++ rbr :: colon :: port) as -> by reflexivity.
+  assert (mem lbr (a ++ rbr :: colon :: port) = false) as ->.
+  { rewrite mem_app, H1. unfold mem at 1. cbn [existsb]. fold (mem lbr port). rewrite H4. reflexivity. }
+  assert (skipn (S (length a) + 1) (lbr :: a ++ rbr :: colon :: port) = colon :: port) as ->.
+  { replace (S (length a) + 1)%nat with (S (length (a ++ [rbr]))) by (rewrite app_length; cbn; lia).
+    cbn [skipn]. replace (a ++ rbr :: colon :: port) with ((a ++ [rbr]) ++ colon :: port)
+      by (rewrite <- app_assoc; reflexivity).
+    rewrite skipn_app, skipn_all, Nat.sub_diag. reflexivity. }
+  assert (mem rbr (colon :: port) = false) as ->.
+  { unfold mem. cbn [existsb]. fold (mem rbr port). rewrite H5. reflexivity. }
+  replace (S (length a) - 1)%nat with (length a + 0)%nat by lia.
+  rewrite firstn_app_2. cbn [firstn]. rewrite app_nil_r. reflexivity.
+Qed.
+
+(** host:port:port (too many colons, no brackets) is rejected. *)
+Lemma split_host_two_colons a b c :
+  a <> [] -> mem lbr a = false -> mem colon c = false ->
+  split_host (a ++ colon :: b ++ colon :: c) = None.
+Proof.
+  intros Ha Hl Hc. unfold split_host.
+  destruct a as [|c0 a'] eqn:Ea; [congruence|]. rewrite <- Ea in *.
+  assert (Hc0 : (c0 =? lbr) = false).
+  { apply N.eqb_neq. intros ->. rewrite Ea in Hl. cbn in Hl. discriminate. }
+  rewrite (shp_nonbracket _ (length (a ++ colon :: b)) c0 (a' ++ colon :: b ++ colon :: c)).
+  - replace (a ++ colon :: b ++ colon :: c) with ((a ++ colon :: b) ++ colon :: c)
+      by (rewrite <- app_assoc; reflexivity).
+    rewrite firstn_app, Nat.sub_diag, firstn_all. cbn [firstn]. rewrite app_nil_r.
+    rewrite mem_app. unfold mem at 2. cbn [existsb]. rewrite N.eqb_refl, orb_true_r. reflexivity.
+  - rewrite Ea. reflexivity.
+  - exact Hc0.
+  - replace (a ++ colon :: b ++ colon :: c) with ((a ++ colon :: b) ++ colon :: c)
+      by (rewrite <- app_assoc; reflexivity).
+    apply last_index_byte_app_last, Hc.
+Qed.
+
+(** Concrete instances (computed): the premises above are satisfiable and the
+    attack spellings give what the theorems say. *)
+Definition ex_victim : bytes := [118;105;99;116;105;109;46] ++ ex_host.             (* victim.example.com *)
+Example ex_tls_empty_sni_host_sub :
+  client_id_of DoH ex_host false None (Some (doh_tls (slash :: dns_query) [] ex_victim)) = CidOk [] /\
+  client_id_of DoH ex_host true None (Some (doh_tls (slash :: dns_query) [] ex_victim)) = CidErr EMismatch /\
+  client_id_of DoH ex_host true None (Some (doh_tls (slash :: dns_query) [] ex_host)) = CidErr EMismatch /\
+  client_id_of DoH [] true None (Some (doh_tls (slash :: dns_query) [] ex_victim)) = CidOk [] /\
+  client_id_of DoH ex_host true None (Some (doh_tls ex_path [] ex_victim)) = CidOk [109;121;112].
+Proof. repeat split. Qed.
+Example ex_tls_sni_vs_host :
+  client_id_of DoH ex_host true None (Some (doh_tls (slash :: dns_query) ex_cli ex_victim)) = CidOk [109;121;112].
+Proof. reflexivity. Qed.
+Example ex_plain_host :
+  client_id_of DoH ex_host true None (Some (doh_plain (slash :: dns_query) ex_victim)) = CidOk [118;105;99;116;105;109] /\
+  client_id_of DoH ex_host true None (Some (doh_plain (slash :: dns_query) (ex_victim ++ [58;56;48]))) = CidOk [118;105;99;116;105;109] /\
+  client_id_of DoH ex_host true None (Some (doh_plain (slash :: dns_query) (ex_victim ++ [58;49;58;50]))) = CidErr EHostParse /\
+  client_id_of DoH ex_host true None (Some (doh_plain (slash :: dns_query) [91;58;58;49;93;58;56;48])) = CidErr EMismatch /\
+  client_id_of DoH ex_host true None (Some (doh_plain (slash :: dns_query) [])) = CidErr EMismatch.
+Proof. repeat split. Qed.
+Example ex_path_plain : path_plain (slash :: dns_query).
+Proof. left. reflexivity. Qed.
+Example ex_split_host_bracket : split_host [91;58;58;49;93;58;56;48] = Some [58;58;49].
+Proof. reflexivity. Qed.
+
+(** The Host header is reported as the origin only when there is no TLS state. *)
+Lemma from_host_only_without_tls r : name_from_host r = true -> d_tls_sni r = None.
+Proof. unfold name_from_host. destruct (d_tls_sni r); [discriminate|reflexivity]. Qed.
